@@ -4,6 +4,7 @@ import SymVerif.Model.C09Check
 
   expand E<TAB>R                    `ok` iff the proven checker `C09.accepts E R` accepts
   rexpand E<TAB>R                   `SKIP:radical-family` (oracles only)
+  rpair E1 E2<TAB>R1 ;; R2 ;; flag  `SKIP:radical-family` (oracles only)
   pair E1 E2<TAB>R1 ;; R2 ;; flag   both certificates + identity decision
   multinomial m n<TAB>table         `ok` iff the table equals the output of the model `Multinomial.run m n`
 An implementation output `E:…` (exception; always an oracle failure in the harness) is answered `SKIP:…`.
@@ -15,7 +16,7 @@ def handle (line : String) : String :=
   | [opline, res] =>
     let opname := (opline.splitOn " ").headD ""
     let rest := (opline.drop (opname.length)).toString
-    if opname == "rexpand" then "SKIP:radical-family"
+    if opname == "rexpand" || opname == "rpair" then "SKIP:radical-family"
     else if opname == "multinomial" then
       match (rest.trimAscii.toString.splitOn " ").map String.toNat? with
       | [some m, some n] =>
